@@ -20,7 +20,11 @@ def pause_execution(
     execution_id: str,
     paused_by: str,
 ) -> None:
-    """Pause an execution."""
+    """Pause an execution.
+
+    A workflow that already reached a final status stays as it is: the status
+    check is part of the UPDATE, like the one in resume_execution.
+    """
     paused = PausedDetails(
         paused_by=paused_by,
         pause_time=int(time.time() * 1000),
@@ -32,6 +36,8 @@ def pause_execution(
             status = :status,
             paused = :paused
         WHERE id = :id
+          AND status NOT IN
+              ('SUCCEEDED', 'FAILED_CONTINUE', 'TERMINAL', 'CANCELED', 'STOPPED', 'SKIPPED')
         """,
         {
             "id": execution_id,
